@@ -544,6 +544,9 @@ func unitTokBytes(w *casefile.Writer, r *rng.R, n int) {
 		w.Evals(total + 1)
 		if i%2 == 0 {
 			buf, kind := mutate(r, data)
+			if r.Chance(1, 4) { // the last token fills the rest of the block exactly (l == len(data))
+				buf, kind = append([]byte{}, data[:len(data)-4]...), "cut-last-separator"
+			}
 			offs, err, pan := blockUnpackSafe(buf)
 			k := uint32(r.Intn(total + 2))
 			val := "DPanic"
